@@ -34,7 +34,7 @@ func genMux(seed uint64, n int, maxOps int, demux bool, emit func(interface{})) 
 		nops := r.rangeInt(3, maxOps)
 		var live []int // pids as addressed in the scenario (explicit or -k)
 		autoN := 0
-		explicit := []int{256, 257, 258, 4000, 32, 8190}
+		explicit := []int{256, 257, 258, 4000, 32, 8189}
 		churn := r.intn(4) == 0 // configuration-heavy history (version wrap)
 		bigOnce := r.intn(3) == 0
 		for i := 0; i < nops; i++ {
@@ -95,5 +95,58 @@ func genMux(seed uint64, n int, maxOps int, demux bool, emit func(interface{})) 
 			}
 		}
 		emit(sc)
+	}
+}
+
+// countWrites runs a scenario fault-free against a counting writer and returns the number of Write calls
+func countWrites(sc muxScenario) int {
+	w := &recWriter{}
+	runMuxOn(&sc, newNullRecorder(), w)
+	return w.wcalls
+}
+
+// genMuxFault: base histories whose last packet needs 0, 1, 2 and many stuffing bytes (plus tables and WritePacket),
+// each expanded into one scenario per Write-call index and failure mode (C18)
+func genMuxFault(seed uint64, n int, maxOps int, emit func(interface{})) {
+	r := newRng(seed)
+	for s := 0; s < n; s++ {
+		hdr := muxHdrClasses[r.intn(len(muxHdrClasses))]
+		af := r.pickS("none", "none", "pcr", "rai")
+		c1 := 184 - afTotalLen(af) - pesHeaderLen(hdr)
+		stuff := []int{0, 1, 2, 3, 50}[s%5]
+		base := muxScenario{Kind: "mux", Seed: r.u64() >> 1, Period: r.pick(1, 2, 40)}
+		base.Ops = []muxOp{{Op: "add", PID: 256, ST: 15, DK: r.pickS("none", "si", "ud3")}, {Op: "setpcr", PID: 256}}
+		if r.boolean() {
+			base.Ops = append(base.Ops, muxOp{Op: "tables"})
+		}
+		ln := c1 - stuff
+		if r.boolean() {
+			ln += 184 * r.rangeInt(1, 2)
+		}
+		if ln < 1 {
+			ln = 1
+		}
+		base.Ops = append(base.Ops, muxOp{Op: "data", PID: 256, Len: ln, Hdr: hdr, AF: af})
+		extra := r.intn(maxOps)
+		for i := 0; i < extra && i < 4; i++ {
+			switch r.intn(4) {
+			case 0:
+				base.Ops = append(base.Ops, muxOp{Op: "packet", Kind: r.pickS("null", "short", "pcr")})
+			case 1:
+				base.Ops = append(base.Ops, muxOp{Op: "tables"})
+			default:
+				h2 := muxHdrClasses[r.intn(len(muxHdrClasses))]
+				base.Ops = append(base.Ops, muxOp{Op: "data", PID: 256, Len: 184 - pesHeaderLen(h2) - []int{0, 1, 2, 7}[r.intn(4)], Hdr: h2, AF: "none"})
+			}
+		}
+		W := countWrites(base)
+		for at := 0; at < W; at++ {
+			for _, mode := range []string{"once", "perm"} {
+				sc := base
+				sc.SID = fmt.Sprintf("mf-%d-%d-%d-%s", seed, s, at, mode)
+				sc.Fault = &muxFault{At: at, Mode: mode}
+				emit(sc)
+			}
+		}
 	}
 }
